@@ -197,6 +197,11 @@ class Env:
                 p.set(arraymap, "possible_cpus", lambda: self.kernel.possible_cpus)
             if self.monitor is not None:
                 self.monitor.install(p, bpf)
+        if self.sched is not None:
+            from .spawn import AsyncioProxy, GcProxy
+            p.set(ebpfcat_mod, "get_context", lambda method=None: self.spawn_ctx)
+            p.set(ebpfcat_mod, "asyncio", AsyncioProxy(self.sched))
+            p.set(ebpfcat_mod, "gc", GcProxy())
         if self.fs is not None:
             from .fs import FcntlProxy, OsProxy, ShutilProxy, TempfileProxy, make_open
             osp = OsProxy(self.fs, self.sched)
@@ -249,6 +254,8 @@ class Env:
             self.fs.current_pid = self.sched.current_pid
             self.fs.block = self.sched.block_until
             self.fs.mark_hot = self.sched.hot_pids.add
+        from .spawn import SimContext
+        self.spawn_ctx = SimContext(self.sched, self.world)
         return self.sched
 
     def _if_nametoindex(self, name):
